@@ -63,8 +63,8 @@ func vhFlush() {
 }
 
 func vhStat(name string, n int) { vhEmit(vhRec{"k": "stat", "name": name, "n": n}) }
-func vhSample(v interface{})     { vhEmit(vhRec{"k": "sample", "v": v}) }
-func vhNote(v interface{})       { vhEmit(vhRec{"k": "note", "v": v}) }
+func vhSample(v interface{})    { vhEmit(vhRec{"k": "sample", "v": v}) }
+func vhNote(v interface{})      { vhEmit(vhRec{"k": "note", "v": v}) }
 
 // vhViol reports a contradiction between the real code and the property.
 // key is a stable classification (used by known_findings.txt); replay is self-contained.
@@ -172,6 +172,7 @@ func vhParallel(n int, items [][]byte, fn func(idx int, item []byte)) {
 var vhGuardSlack = 4 << 20
 
 var (
+	vhHangs    int
 	vhCaseN    int
 	vhOnlyCase = -2
 	vhSkipCase map[int]bool
@@ -193,6 +194,15 @@ func vhGuard(inputLen int, fn func()) string {
 	idx := vhCaseN
 	vhCaseN++
 	if (vhOnlyCase >= 0 && idx != vhOnlyCase) || vhSkipCase[idx] {
+		return ""
+	}
+	if vhHangs >= 6 {
+		// every hang costs five seconds and leaves a spinning goroutine behind: six establish the defect, the rest of the inputs
+		// of this process is not examined
+		if vhHangs == 6 {
+			vhHangs++
+			vhEmit(vhRec{"k": "note", "v": "six decoder calls did not return: the remaining inputs of this harness run were not examined"})
+		}
 		return ""
 	}
 	vhEmit(vhRec{"k": "begin", "idx": idx})
@@ -217,6 +227,7 @@ func vhGuard(inputLen int, fn func()) string {
 			return r
 		}
 	case <-time.After(5 * time.Second):
+		vhHangs++
 		return "hang"
 	}
 	runtime.ReadMemStats(&after)
